@@ -148,6 +148,17 @@ impl Stack {
         self.stack[frame.rp as usize + index] = value;
     }
 
+    /// Number of values currently on the stack.
+    #[allow(clippy::len_without_is_empty)]
+    pub(crate) fn len(&self) -> usize {
+        self.stack.len()
+    }
+
+    /// Shorten the stack to `len` values.
+    pub(crate) fn truncate(&mut self, len: usize) {
+        self.stack.truncate(len);
+    }
+
     /// Truncate the stack to the given frame.
     pub(crate) fn truncate_to_frame(&mut self, frame: &CallFrame) {
         self.stack.truncate(frame.frame_pointer());
@@ -644,6 +655,13 @@ impl Vm {
         self.frames.pop()
     }
 
+    /// Pops the current frame and discards everything it may have left on the stack.
+    pub(crate) fn pop_frame_and_truncate(&mut self) -> Option<CallFrame> {
+        let frame = self.pop_frame()?;
+        self.stack.truncate_to_frame(&frame);
+        Some(frame)
+    }
+
     /// Handles an exception thrown at position `pc`.
     ///
     /// Returns `true` if the exception was handled, `false` otherwise.
@@ -838,7 +856,14 @@ impl Context {
                 frame = Some(f);
             }
             self.vm.frame_mut().environments.truncate(env_fp);
-            if let Some(frame) = frame {
+            if self.vm.frame().exit_early() {
+                // The frame that returns to the host is popped by its caller: leave nothing
+                // of it (nor of the frames that were unwound above it) on the stack.
+                let env_fp = self.vm.frame().env_fp as usize;
+                self.vm.frame_mut().environments.truncate(env_fp);
+                let frame = self.vm.frames.last().expect("frame must exist");
+                self.vm.stack.truncate_to_frame(frame);
+            } else if let Some(frame) = frame {
                 self.vm.stack.truncate_to_frame(&frame);
             }
             return ControlFlow::Break(CompletionRecord::Throw(err));
@@ -937,6 +962,9 @@ impl Context {
             }
 
             if exit_early {
+                self.vm.frame_mut().environments.truncate(env_fp as usize);
+                let frame = self.vm.frames.last().expect("frame must exist");
+                self.vm.stack.truncate_to_frame(frame);
                 return ControlFlow::Break(CompletionRecord::Throw(
                     self.vm
                         .pending_exception
